@@ -130,3 +130,23 @@ CASES += [
     {"name": "site operators: branch chosen by total and electronic state counts", "kind": "twin", "edits": [
         ("quantarhei/builders/aggregate_base.py", "            if self.nmono != self.Nb[1]:\n                # create a projection operator for each monomer", "            if self.Ntot != self.Nel:\n                # create a projection operator for each monomer", 1)]},
 ]
+
+_MOL16 = "quantarhei/builders/molecules.py"
+_D_OLD = ("                    # for each bath, save the state of the \n                    # transition g -> j\n"
+          "                    d[nob] = j\n                    \n                    nob += 1\n")
+CASES += [
+    {"name": "states of the transitions appended for every transition, baths counted for those with an environment "
+             "(seeded change of round 8)", "kind": "mutant", "rule": "C16-N", "edits": [
+        (_MOL16, "                eg = self.egcf[self.triangle.locate(i,j)]\n                if eg is not None:\n                    # we save where",
+                 "                eg = self.egcf[self.triangle.locate(i,j)]\n                trstates.append(j)\n                if eg is not None:\n                    # we save where", 1),
+        (_MOL16, "        d = {}\n        where = {}\n        for i in range(self.nel):\n            if i > 0:\n                break # transitions not",
+                 "        d = {}\n        trstates = []\n        where = {}\n        for i in range(self.nel):\n            if i > 0:\n                break # transitions not", 1),
+        (_MOL16, "            state = d[n]\n", "            state = trstates[n]\n", 1)]},
+    {"name": "state of the transition recorded after the counter advanced", "kind": "mutant", "rule": "C16-N", "edits": [
+        (_MOL16, _D_OLD, "                    nob += 1\n                    d[nob] = j\n", 1)]},
+    {"name": "states of the transitions appended where the baths are counted", "kind": "twin", "edits": [
+        (_MOL16, _D_OLD, "                    d[nob] = j\n                    trstates.append(j)\n                    nob += 1\n", 1),
+        (_MOL16, "        d = {}\n        where = {}\n        for i in range(self.nel):\n            if i > 0:\n                break # transitions not",
+                 "        d = {}\n        trstates = []\n        where = {}\n        for i in range(self.nel):\n            if i > 0:\n                break # transitions not", 1),
+        (_MOL16, "            state = d[n]\n", "            state = trstates[n]\n", 1)]},
+]
